@@ -87,3 +87,51 @@ def check_template(name, n, cnf):
                     f'{"satisfied" if sat else "falsified"} but {name}{tuple(int(x) for x in xs)}={int(want)}'
                 )
     return problems
+
+
+def clauses_for(repo, hmod, hname, lits, top):
+    """Clause list for explicit operand literals (possibly repeated) and top literal."""
+    it = Interp(repo)
+    f = RepoFunc(it, hmod, hmod.func(hname))
+    cnf: list = []
+    try:
+        f(cnf, top, list(lits))
+    except InterpRaise as e:
+        return f'raise:{e.exc_name}'
+    return cnf
+
+
+def patterns(n):
+    """Equality patterns (restricted growth strings) of n operand positions with at least one repeat."""
+    out = []
+
+    def rec(prefix, mx):
+        if len(prefix) == n:
+            if mx < n:
+                out.append(list(prefix))
+            return
+        for v in range(1, mx + 2):
+            rec(prefix + [v], max(mx, v))
+
+    rec([], 0)
+    return out
+
+
+def check_pattern(name, pattern, cnf):
+    """Operand position i carries variable pattern[i]; top variable = max(pattern) + 1."""
+    k = max(pattern)
+    top = k + 1
+    problems = []
+    used = {abs(l) for cl in cnf for l in cl}
+    if used - set(range(1, top + 1)):
+        return [f'mentions foreign literals {sorted(used - set(range(1, top + 1)))}']
+    for vals in semantics.bools(k):
+        xs = [vals[v - 1] for v in pattern]
+        want = semantics.value(name, xs)
+        for t in (False, True):
+            a = {i + 1: vals[i] for i in range(k)}
+            a[top] = t
+            sat = satisfied(cnf, a)
+            if sat != (t == want):
+                problems.append(f'operand variables {pattern} = {tuple(int(x) for x in xs)}, top={int(t)}: clauses {"satisfied" if sat else "falsified"} but {name} gives {int(want)}')
+    return problems
